@@ -21,6 +21,7 @@ RULE = (
     "bootstrap draws in between): every repeated deterministic query returns the identical result, aliases return identical values, "
     "pointwise_cm has shape scores.shape+X+(2,2) and leaves its arguments unchanged. W1: X from () to 3-d incl. size-0 axes, lists, 0-d arrays, "
     "int/float32 scores, easy counts, 4 cfg, Scores and GroupScores. Non-trivial: both classes non-empty; distinct = hash of inputs."
+    ' Build-phase additions: NaN thresholds in the elementwise clause, == / != against reconstructions and one-field variants, pointwise_cm call forms with documented defaults left out.'
 )
 ASSUMPTIONS = ["finite scores, non-NaN thresholds/targets", "NumPy global RandomState seeded per case (bootstrap calls inside a history)"]
 RATES = ["tpr", "fnr", "tnr", "fpr", "topr", "tonr"]
